@@ -1,4 +1,8 @@
+# C08: the mock verdict is exact.  Obligations = the BATCH(...) lines of h08_batches.h (one source of truth).
+import os, re
+HERE = os.path.dirname(os.path.abspath(__file__))
 STUBS = [
+    # Mock*Failure constructors: message construction (property C14) is replaced by the category of the failure class
     '_ZN35MockExpectedCallsDidntHappenFailureC2EP10UtestShellRK21MockExpectedCallsList',
     '_ZN33MockUnexpectedCallHappenedFailureC2EP10UtestShellRK12SimpleStringRK21MockExpectedCallsList',
     '_ZN20MockCallOrderFailureC2EP10UtestShellRK21MockExpectedCallsList',
@@ -9,22 +13,53 @@ STUBS = [
     '_ZN32MockNoWayToCopyCustomTypeFailureC2EP10UtestShellRK12SimpleString',
     '_ZN27MockUnexpectedObjectFailureC2EP10UtestShellRK12SimpleStringPKvRK21MockExpectedCallsList',
     '_ZN36MockExpectedObjectDidntHappenFailureC2EP10UtestShellRK12SimpleStringRK21MockExpectedCallsList',
+    # same effect, but clears the inactive bytes of the value union too (see h08.c)
+    '_ZN14MockNamedValue8setValueEi',
+    # a failing check of the framework inside the mock engine is a violation (harness assertion)
     '_ZN10UtestShell4failEPKcS1_mRK14TestTerminator',
     '_ZN10UtestShell8failWithERK11TestFailureRK14TestTerminator',
 ]
-def ob(script, **kw):
-    d = {'fn': 'harness_' + script, 'unwind': 24, 'timeout': 600, 'bounds': script, 'optional_witness': ['failure path'],
-         'cbmc_flags': ['--max-field-sensitivity-array-size', '256']}
-    d.update(kw)
-    return d
+DIGITS = {'FULL': 'expected count 0|1|2, parameter none|p=1|p=2|q=1, object none|o1|o2, return value asked no|yes',
+          'CORE': 'expected count 1|2, parameter none|p=1|p=2, object none|o1, return value always asked'}
+def obligations():
+    obs = []
+    for l in open(os.path.join(HERE, 'h08_batches.h')):
+        m = re.match(r'BATCH\((\w+), (\d+), (\d+), (\w+), (\d+), (\d+), (\d+)\)\s*/\* tier=(\w+) family=(\w+)/\w+ size=(\d+)', l)
+        if not m:
+            continue
+        name, ne, na, mode, lo, stride, count, tier, fam, size = m.groups()
+        ne, na, lo, stride, count, size = int(ne), int(na), int(lo), int(stride), int(count), int(size)
+        bounds = ('%d histories of the enumerated family %s (%d histories: strict order off/on x ignoreOtherCalls off/on x %d expectation(s) x %d actual call(s); '
+                  'functions a|b, %s): numbers %d, %d, ... step %d; which of them runs is a symbolic input, as are the return values attached to the expectations '
+                  'and the default passed by the caller (32 bit each); ambiguous expectation pairs excluded (precondition of the property)'
+                  % (count, fam, size, ne, na, DIGITS[mode], lo, lo + stride, stride))
+        obs.append({'fn': 'harness_' + name, 'tier': tier, 'unwind': 24, 'unwindset': ['batch.%d:%d' % (k, count + 2) for k in range(8)],
+                    'timeout': 1500 if tier == 'quick' else 3600, 'object_bits': 13, 'bounds': bounds, 'optional_witness': ['failure path', 'end'], 'diff_runs': 150})
+    return obs
 SPEC = {
     'property': 'C08',
-    'functions_of_interest': ['MockSupport', 'MockCheckedActualCall', 'MockCheckedExpectedCall', 'MockExpectedCallsList'],
-    'assumptions': [],
+    'functions_of_interest': ['MockSupport', 'MockCheckedActualCall', 'MockCheckedExpectedCall', 'MockExpectedCallsList', 'MockNamedValueList'],
+    'assumptions': [
+        'bounded HISTORY exploration by enumeration: every history of the stated families is one concrete path through the real mock engine inside the symbolic executor; '
+        'the choice of the history, the return values and the caller\'s default are the symbolic inputs.  Function names, parameter names, parameter values, expected counts and object '
+        'identities are enumerated, not symbolic: a symbolic value of any of them makes the SHAPE of the candidate lists symbolic, and that was measured to be out of reach '
+        '(1 expectation with one parameter / 1 actual call with a symbolic parameter value: no verdict in 1200 s, 5 GB; see the final report)',
+        'parameter values are drawn from {1, 2}: the engine only compares them for equality (MockNamedValue::equals, property C09 for all values)',
+        'failure categories are the Mock*Failure classes: in the translated world their constructors are stubs that record the class (the text is property C14); the real build '
+        'classifies the first line of the real message.  "Unexpected call" vs "unexpected additional call" and "unexpected parameter name" vs "value" are not told apart',
+        'the reporter installed with setMockFailureStandardReporter ends the path at the first failure (a failing mock check leaves the test): "fails once" is part of the model, not checked',
+        'an expectation without onObject accepts a call on any object (documented behaviour); a pair of expectations that differ only in that one names an object and the other does not is ambiguous and excluded',
+        'actual calls supply their attributes in the order function, object, parameter; identical expectations are consumed in declaration order',
+        'MockNamedValue::setValue(int) is replaced in the translated world by an equivalent that also clears the inactive bytes of the 16-byte value union (otherwise constants are lost to the symbolic executor); the real build runs the original',
+        'allocations come from static first-fit pools per size class (8/32-byte strings, 8/16/88/160-byte objects); memory safety of the engine is not the subject (heapcheck off)',
+        'left out: output parameters, parameters of other types and custom types, ignoreOtherParameters, more than one parameter per call, scopes, the data store, disable/enable/tracing, histories beyond 2 expectations / 3 actual calls',
+    ],
     'groups': [{
         'name': 'mock', 'wrapper': 'w08.cpp', 'harness': 'h08.c',
         'config': {'ext': True, 'heapcheck': False, 'stubs': STUBS},
-        'defines': ['-DKF_C08_1'],
-        'obligations': [ob(s) for s in ['ap__ap', 'ap__aq', 'a__b']],
+        # open findings: KF-C08-1 (diagnosis precedence under strict order: histories that end with an open expectation AND an out-of-turn call are excluded),
+        # KF-C08-2 (stale "object was passed" mark: histories in which a successful call leaves such a mark and a later call to that function names no object are excluded)
+        'defines': ['-DKF_C08_1', '-DKF_C08_2'],
+        'obligations': obligations(),
     }],
 }
